@@ -79,3 +79,19 @@ Fixpoint run_queries (fuel : nat) (g : graph) (st : sstate) (qs : list (list bid
       end
     end
   end.
+
+(* clause (ii), strict reading: a node-by-node backward walk on which the condition of EVERY node
+   visited joins the goals at that node; a node may be left only if it binds no variable of a goal
+   that is still pending *)
+Definition with_cond (g : graph) (n : node) (S : list bid) : list bid :=
+  match cond g n with Some c => sins c S | None => S end.
+
+Inductive ExplC (g : graph) : node -> list bid -> Prop :=
+| EC_done : forall n S removed,
+    resolves_at g n (with_cond g n S) (removed, []) -> goals_conflict g removed = false ->
+    ExplC g n S
+| EC_step : forall n S removed new m,
+    resolves_at g n (with_cond g n S) (removed, new) -> goals_conflict g removed = false ->
+    smem n (blocked_of g new) = false -> In m (incoming g n) ->
+    ExplC g m new ->
+    ExplC g n S.
